@@ -23,7 +23,12 @@ for _h in range(-12, 15):
 # named zones: offsets from Python's zoneinfo (independent reader of the same tz data)
 NAMED = ["Europe/Helsinki", "America/New_York", "America/Goose_Bay", "Australia/Lord_Howe", "Asia/Kolkata",
          "Asia/Kathmandu", "Pacific/Apia", "Pacific/Kiritimati", "America/St_Johns", "Africa/Monrovia",
-         "Europe/Amsterdam", "Antarctica/Troll", "Europe/Dublin", "America/Sao_Paulo", "Asia/Tehran"]
+         "Europe/Amsterdam", "Antarctica/Troll", "Europe/Dublin", "America/Sao_Paulo", "Asia/Tehran", "America/Moncton"]
+# instants (s) at which the zone's clock fell back from 00:01 to 23:01 (or 22:01) of the previous day:
+# the local date DEcreases with time there (the F10 shape; 60 s window with the later date before the instant)
+FALLBACK = {"America/Goose_Bay": [562129260, 594180060, 625633260, 1130641260, 1289098860],
+            "America/St_Johns": [562127460, 594178260, 1130639460, 1289097060],
+            "America/Moncton": [752036460, 1162090860]}
 # local dates around which named zones change their offset (fall back / spring forward / skipped day)
 DST_DATES = {
     "America/Goose_Bay": [(2005, 10, 30), (2005, 4, 3), (2010, 11, 7), (1990, 10, 28)],
@@ -124,6 +129,14 @@ def gen_case(r):
     n = r.randint(2, 8)
     anchors = [gen_anchor(r, zone, gb) for _ in range(r.choice([1, 1, 2]))]
     insts = []
+    if r.random() < 0.12:
+        zone = r.choice(list(FALLBACK))
+        T = r.choice(FALLBACK[zone])
+        for i in range(n):
+            k = r.randrange(5)
+            sec = [T - r.randint(1, 60), T - r.randint(1, 60), T + r.randint(0, 3539), T - r.randint(61, 7200), T + r.randint(3540, 90000)][k]
+            insts.append((sec * NS + r.choice([0, 0, 1, NS - 1]), r.choice(JOFFS)))
+        n = 0
     for i in range(n):
         L = r.choice(anchors)
         off = tz_offset(zone, min(max(L, LO_SEC), HI_SEC))
@@ -295,7 +308,7 @@ def main(run):
         raise Infra("python zoneinfo not available")
     info = proof_stage(run, "C13", extra_targets=["corr/C13_corr.vo"])
     harness_build()
-    n = 160 if run.tier == "quick" else 2500
+    n = 200 if run.tier == "quick" else 2500
     cases = load_corpus() + [gen_case(run.rng) for _ in range(n)]
     stages = evaluate(run, cases)
     distinct = set()
@@ -343,7 +356,7 @@ def main(run):
     run.cov["rule"] = ("corpus + seeded journals of 2-8 transactions whose instants lie within 1 ns / 1 s / hours / days of period "
                        "boundaries (year, month, leap day, Monday, Dec 29-Jan 3) taken in the report zone, in UTC and in the "
                        "transaction's own offset; report zones: fixed offsets -12h..+14h (Etc/GMT*, offsets known without tz data) and "
-                       "15 named zones incl. DST fall-back across midnight, a skipped day, 30/45-minute and sub-minute offsets "
+                       "16 named zones incl. DST fall-back across midnight (12% of the cases sit on such an instant), a skipped day, 30/45-minute and sub-minute offsets "
                        "(offset per instant from Python zoneinfo); all five group-by settings; 40% with an account selector; "
                        "non-trivial = report with >= 2 groups; distinct = distinct implementation outputs")
     run.notes["stages"] = stages
